@@ -418,6 +418,40 @@ open C14HL in
 theorem hist_guards (L : Layout) (hL : LOK L) (h : HState) (hG : GOK L h) (ops : List HOp) : GOK L (hrun L h ops) :=
   (hrun_rel L hL ops h hG).2
 
+open C14HL in
+/-- **an operation on one target writes only at that target's entry**: `Patch`/`Ptr`, `Apply`, `Unpatch`, `Restore` and
+    `Unpatch(fn)` of target `i` — also of a target that carries no patch, and whatever other targets are mocked at the time —
+    leave every byte outside `[org i, org i + 13)` unchanged; in particular no other target's mock is installed or removed. -/
+theorem step_writes_only_own_entry (L : Layout) (h : HState) (hG : GOK L h) (op : HOp) (i : Nat)
+    (ht : op.target = some i) (q : Addr) (hq : ∀ j, j < 13 → q ≠ L.org i + BitVec.ofNat 64 j) :
+    (hstep L h op).1.m.mem q = h.m.mem q :=
+  hstep_rel1 L h hG op i ht q hq
+
+open C14HL in
+/-- **too short stays refused**: a target whose scanned size is ≤ 13 never obtains a guard, however often `Patch` is
+    retried and whatever happens in between (a refused attempt stays registered, patch.go:109 — that must not turn a
+    later attempt into an acceptance); so nothing is ever written at its entry by `Apply`/`Unpatch`/`Restore`/`UnpatchAll`. -/
+theorem hist_short_never_patched (L : Layout) (i : Nat) (hs : L.fsz i ≤ 13) (h : HState) (hn : h.slots i = none)
+    (ops : List HOp) : (hrun L h ops).slots i = none :=
+  hrun_short L i hs ops h hn
+
+/-- … and every single attempt is refused (or aborted by a panicking removal of the stale registration), never accepted -/
+theorem short_patch_never_ok (L : Layout) (i : Nat) (hs : L.fsz i ≤ 13) (h : HState) :
+    (hstep L h (.patch i)).2 ≠ HRes.ok := by
+  simp only [hstep]
+  split
+  · intro e; cases e
+  · simp only [patchAfter, genJumpData, jump_len, ge_iff_le, hs, if_true]
+    intro e; cases e
+
+/-- non-vacuity for the three theorems above: a 9-byte target (8 code + 1 padding) next to an ordinary one, after a first
+    refused attempt (stale registration in the table) -/
+example : ∃ (L : Layout) (h : HState), L.fsz 0 ≤ 13 ∧ h.slots 0 = none ∧ h.table = [(0, false)] ∧ C14HL.GOK L h ∧
+    (HOp.unpatchFn 1).target = some 1 :=
+  ⟨{ org := fun i => if i = 0 then 0x7f0000001000#64 else 0x401fe0#64, fsz := fun i => if i = 0 then 9 else 64, to := 0xc000001000#64 },
+   { m := { mem := fun _ => 0xcc#8, perm := fun _ => some RX }, slots := fun _ => none, table := [(0, false)] },
+   by decide, rfl, rfl, (fun _ _ hs => by simp at hs), rfl⟩
+
 /-- non-vacuity: two targets 32 bytes apart in a text page, a third in separately mapped code; the empty initial
     state; a history that patches all three, applies them, loses the third's memory and calls `UnpatchAll` -/
 example : ∃ (L : Layout) (h : HState) (ops : List HOp), C14HL.LOK L ∧ C14HL.GOK L h ∧ ops.length = 8 :=
